@@ -2,39 +2,52 @@
 # GatherCycle — the gathering-cycle state machine behind the nil candidate (DESIGN Appendix B.7)
 
 Agent fields touched only inside tasks of the task loop (`a.gatheringState`, `a.localUfrag`,
-`a.gatherCandidateCancel`), one thread per gathering cycle (`gatherCandidates`, gather.go L162–204,
+`a.gatherCandidateCancel`), one thread per gathering cycle (`gatherCandidates`, gather.go L199–240,
 with any number of concurrent gatherers below it), and the API calls `GatherCandidates`, `Restart`,
-`Close`.  A task is atomic (the task loop runs one at a time, internal/taskloop L55–64); tasks of
+`Close`.  A task is atomic (the task loop runs one at a time, internal/taskloop L56–64); tasks of
 different threads interleave arbitrarily: `step` takes the action as an argument.
-Line numbers: /repo at commit 19c3ca1 (the commit that added the in-task context re-check to
-`addCandidate`, finding F23 / DESIGN §7 S5).
+Line numbers: /repo at commit 96b71f9 (the in-task context re-check of `addCandidate`, finding F23 / DESIGN §7 S5,
+was added by a8cccb9).
 
 What is modelled, statement by statement:
 
-* `GatherCandidates` (gather.go L134–160) — task L137–155: L138 `gatheringState != New` → ErrMultipleGatherAttempted;
-  (L142 no handler → error: the harness always installs one, not modelled); L148 cancel the previous
-  cycle's context; L149–152 new context (it carries the ufrag current at this moment, `gatherUfragKey`, which
+* `GatherCandidates` (gather.go L171–197) — task L174–192: L175 `gatheringState != New` → ErrMultipleGatherAttempted;
+  (L179 no handler → error: the harness always installs one, not modelled); L185 cancel the previous
+  cycle's context; L186–189 new context (it carries the ufrag current at this moment, `gatherUfragKey`, which
   the gatherers read through `gatherUfrag(ctx)` — the ghost field `Cycle.ufrag`), cancel func and done channel
-  stored; L154 `go gatherCandidates`.
-* cycle thread (gather.go L162–183) — L164 `setGatheringState(ctx, Gathering)`: task (agent.go L2023–2046):
-  L2029 `gatherCtx.Err() != nil` → not applied; else L2037 `gatheringState = Gathering`;
-  L165–169 error (loop closed) → return; L171–173 not applied → return; L175 `gatherCandidatesInternal`
-  (gatherers publish through `addCandidate`; returns when all gatherers have returned, L309 `wg.Wait`);
-  L179 gather-once: `setGatheringState(ctx, Complete)`: task: L2029 cancelled → nothing; else L2033–2035
-  `if gatheringState != Complete { EnqueueCandidate(nil) }`; L2037 `gatheringState = Complete`.
-* `addCandidate` (agent.go L1355–1407) — L1356 `ctx.Err() != nil` → error (outside the task); L1361
-  `a.loop.Run(ctx, task)`: `select` among ctx done / loop closed / hand-off (taskloop L95–104): when the
-  context was cancelled after L1356 both the ctx case and the hand-off can be ready and Go picks either.
-  The task RE-CHECKS the context first (L1364–1368, commit 19c3ca1): for a cancelled cycle it publishes
-  nothing and `addCandidate` returns the context's error — for the shared state that is the same transition
-  as `Run` returning `ctx.Err()` (`pubAbort`: one in-flight call less, nothing published).  Only for a cycle
-  whose context is NOT cancelled at the time of the task does the task go on: it tags the candidate with
-  `a.localUfrag` (L1385 `setCandidateExtensions`, L1409–1417) — which is then still the cycle's own ufrag
-  (`Inv.live_ufrag`) — and publishes it (L1399–1401 `EnqueueCandidate(cand)`) (`pubTask`), except duplicates
-  (L1371–1383) and location-tracked candidates (L1399), which are not published (`pubSkip`).
-* `Restart` (agent.go L1967–2018) — task: L1992 cancel; L1996 `localUfrag = ufrag`; L2000 `gatheringState = New`.
+  stored; L191 `go gatherCandidates`.
+* cycle thread (gather.go L199–240) — L201 `setGatheringState(ctx, Gathering)`: task (agent.go L2029–2052):
+  L2035 `gatherCtx.Err() != nil` → not applied; else L2043 `gatheringState = Gathering`;
+  L202–206 error (loop closed) → return; L208–210 not applied → return; L212 `gatherCandidatesInternal`
+  (gatherers publish through `addCandidate`; returns when all gatherers have returned, `wg.Wait`);
+  L216 gather-once: `setGatheringState(ctx, Complete)`: task: L2035 cancelled → nothing; else L2039–2041
+  `if gatheringState != Complete { EnqueueCandidate(nil) }`; L2043 `gatheringState = Complete`.
+* `addCandidate` (agent.go L1356–1408), three places where the cycle's context matters:
+  (1) FIRST CHECK, outside any task: L1357 `ctx.Err() != nil` → return the error (`pubCheck` is the check passing:
+      one more call sits in `a.loop.Run`);
+  (2) HAND-OFF: L1362 `a.loop.Run(ctx, task)`: taskloop L91–93 loop already closed → ErrClosed; L95–104 `select`
+      among `ctx.Done()` → `ctx.Err()`, `l.done` → ErrClosed, and the hand-off `l.tasks <- task`.  When the context
+      was cancelled after (1) both the ctx case and the hand-off can be ready and Go picks either one.
+      `pubAbort` = `Run` returns an error (context done or loop closed), the task never runs;
+  (3) IN-TASK RE-CHECK: the task's first statement (L1365–1369, commit a8cccb9) tests the cycle's context again:
+      `pubRefuse` = hand-off taken (loop open) for a cycle whose context is cancelled: the re-check fails, the task
+      does nothing else, `addCandidate` returns the context's error (L1407 `taskErr`).  On the shared state
+      `pubRefuse` and `pubAbort` are the same transition (one in-flight call less, nothing published, nothing
+      started) — they are kept apart because they are different paths of the code: the first is `Run`'s `select`,
+      the second is the fix of F23; without the second, (2) would let a cancelled cycle publish into the next
+      generation.
+  Only for a cycle whose context is NOT cancelled at the time of the task does the task go on: duplicates
+  (L1371–1384) are closed and not published (`pubSkip`); otherwise it tags the candidate with `a.localUfrag`
+  (L1386 `setCandidateExtensions`, L1410–1418) — which is then still the cycle's own ufrag (`Inv.live_ufrag`) —,
+  starts it (L1387), appends it to `a.localCandidates` (L1389–1390, `State.locals`) and publishes it (L1400–1402
+  `EnqueueCandidate(cand)`) (`pubTask`); location-tracked candidates (L1400) are started and listed but not
+  published (not modelled: the correspondence runs have none; `pubSkip` over-approximates their publication side).
+* `Restart` (agent.go L1973–2024) — task: L1998 cancel; L2002 `localUfrag = ufrag`; L2006 `gatheringState = New`;
+  L2011 `deleteAllCandidates` (`locals := []`: every local candidate is closed, with its socket).
 * `Close` — `close` is the moment the task loop leaves its `select` (taskloop L58–59); no task runs afterwards
-  (every `Run` returns ErrClosed, taskloop L91–93, L98–99).
+  (every `Run` returns ErrClosed, taskloop L91–93, L98–99).  The loop's deferred `onClose` (agent.go L557–573) cancels the
+  current cycle, waits for its goroutine and deletes all candidates; the list cannot be read any more from the moment
+  the loop ended (every API call returns ErrClosed), so `close` clears `locals` at once.
 
 Not modelled: GatherContinually (the property speaks of gather-once), the error of a missing handler.
 
@@ -49,11 +62,11 @@ inductive GState where
   deriving DecidableEq, Repr, Inhabited
 
 inductive CyPc where
-  /-- goroutine spawned (gather.go L154), before the Gathering task (L164) -/
+  /-- goroutine spawned (gather.go L191), before the Gathering task (L201) -/
   | start
-  /-- inside `gatherCandidatesInternal` (L175): gatherers may publish -/
+  /-- inside `gatherCandidatesInternal` (L212): gatherers may publish -/
   | gathering
-  /-- all gatherers returned (L309), before the Complete task (L179) -/
+  /-- all gatherers returned, before the Complete task (L216) -/
   | finishing
   /-- the goroutine has returned -/
   | done
@@ -65,7 +78,7 @@ structure Cycle where
   /-- the cycle's context is cancelled -/
   cancelled : Bool := false
   pc : CyPc := .start
-  /-- `addCandidate` calls that passed `ctx.Err()` (L1356) and sit in `loop.Run`'s select (L1361, taskloop L95) -/
+  /-- `addCandidate` calls that passed `ctx.Err()` (L1357) and sit in `loop.Run`'s select (L1362, taskloop L95) -/
   checked : Nat := 0
   /-- ghost: the Complete task of this cycle was applied -/
   completed : Bool := false
@@ -88,6 +101,8 @@ structure State where
   closed : Bool := false
   cycles : List Cycle := []
   published : List Pub := []
+  /-- `a.localCandidates`: (cycle, ufrag tag) of every candidate that was started and not deleted since, oldest first -/
+  locals : List (Nat × Nat) := []
   deriving DecidableEq, Repr, Inhabited
 
 def init : State := {}
@@ -101,6 +116,7 @@ inductive Action where
   | pubTask (c : Nat)
   | pubSkip (c : Nat)
   | pubAbort (c : Nat)
+  | pubRefuse (c : Nat)
   | gatherersDone (c : Nat)
   | cycleFinish (c : Nat)
   deriving DecidableEq, Repr, Inhabited
@@ -131,33 +147,33 @@ def step (s : State) : Action → Option State
   | .gatherCall =>
     -- taskloop L91–93: loop closed → ErrClosed
     if s.closed then some s
-    -- gather.go L138–141
+    -- gather.go L175–178
     else if s.gstate ≠ .new then some s
     else
-      -- L148 cancel previous; L149–154 new ctx, spawn
+      -- L185 cancel previous; L186–191 new ctx, spawn
       let cs := cancelCur s
       some { s with cycles := cs ++ [{ ufrag := s.ufrag }], cur := some cs.length }
   | .restart u =>
     if s.closed then some s
-    -- agent.go L1992, L1996, L2000
-    else some { s with cycles := cancelCur s, ufrag := u, gstate := .new }
+    -- agent.go L1998, L2002, L2006, L2011
+    else some { s with cycles := cancelCur s, ufrag := u, gstate := .new, locals := [] }
   | .close =>
-    if s.closed then none else some { s with closed := true }
+    if s.closed then none else some { s with closed := true, locals := [] }
   | .cycleStart c =>
     match s.cycles[c]? with
     | some cy =>
       if cy.pc ≠ .start then none
-      -- gather.go L165–169: Run failed
+      -- gather.go L202–206: Run failed
       else if s.closed then some { s with cycles := s.cycles.set c { cy with pc := .done } }
-      -- agent.go L2029–2031 not applied; gather.go L171–173
+      -- agent.go L2035–2037 not applied; gather.go L208–210
       else if cy.cancelled then some { s with cycles := s.cycles.set c { cy with pc := .done } }
-      -- agent.go L2037
+      -- agent.go L2043
       else some { s with gstate := .gathering, cycles := s.cycles.set c { cy with pc := .gathering } }
     | none => none
   | .pubCheck c =>
     match s.cycles[c]? with
     | some cy =>
-      -- agent.go L1356: ctx.Err() == nil
+      -- (1) agent.go L1357: ctx.Err() == nil
       if cy.pc = .gathering ∧ cy.cancelled = false then
         some { s with cycles := s.cycles.set c { cy with checked := cy.checked + 1 } }
       else none
@@ -165,17 +181,18 @@ def step (s : State) : Action → Option State
   | .pubTask c =>
     match s.cycles[c]? with
     | some cy =>
-      -- taskloop L100 hand-off taken; agent.go L1364 `ctx.Err() == nil` INSIDE the task (a cancelled cycle
-      -- takes `pubAbort` instead); L1385 tag with the current ufrag; L1399–1401 publish
+      -- (2) taskloop L100 hand-off taken; (3) agent.go L1365 `ctx.Err() == nil` INSIDE the task (a cancelled cycle
+      -- takes `pubRefuse` instead); L1386 tag with the current ufrag; L1389–1390 list; L1400–1402 publish
       if cy.pc = .gathering ∧ 0 < cy.checked ∧ s.closed = false ∧ cy.cancelled = false then
         some { s with cycles := s.cycles.set c { cy with checked := cy.checked - 1 },
-                      published := s.published ++ [Pub.cand c s.ufrag] }
+                      published := s.published ++ [Pub.cand c s.ufrag],
+                      locals := s.locals ++ [(c, s.ufrag)] }
       else none
     | none => none
   | .pubSkip c =>
     match s.cycles[c]? with
     | some cy =>
-      -- agent.go L1364 passed, then L1371–1383 duplicate, or L1399 location-tracked: nothing is published
+      -- (2), (3) agent.go L1365 passed, then L1371–1384 duplicate: nothing is published or listed
       if cy.pc = .gathering ∧ 0 < cy.checked ∧ s.closed = false ∧ cy.cancelled = false then
         some { s with cycles := s.cycles.set c { cy with checked := cy.checked - 1 } }
       else none
@@ -183,16 +200,24 @@ def step (s : State) : Action → Option State
   | .pubAbort c =>
     match s.cycles[c]? with
     | some cy =>
-      -- taskloop L96–99: ctx done or loop closed; or hand-off taken and the task's own re-check fails
-      -- (agent.go L1364–1368, cancelled cycle, loop open): nothing published, `addCandidate` returns the error
+      -- (2) taskloop L91–93, L96–99: `Run` returns ctx.Err() or ErrClosed, the task never runs
       if cy.pc = .gathering ∧ 0 < cy.checked ∧ (cy.cancelled = true ∨ s.closed = true) then
+        some { s with cycles := s.cycles.set c { cy with checked := cy.checked - 1 } }
+      else none
+    | none => none
+  | .pubRefuse c =>
+    match s.cycles[c]? with
+    | some cy =>
+      -- (2) taskloop L100 hand-off taken (loop open) although the context is done; (3) agent.go L1365–1369 the task's
+      -- own re-check fails: nothing tagged, started, listed or published, `addCandidate` returns the context's error
+      if cy.pc = .gathering ∧ 0 < cy.checked ∧ s.closed = false ∧ cy.cancelled = true then
         some { s with cycles := s.cycles.set c { cy with checked := cy.checked - 1 } }
       else none
     | none => none
   | .gatherersDone c =>
     match s.cycles[c]? with
     | some cy =>
-      -- gather.go L309 wg.Wait(): every gatherer (hence every addCandidate call) has returned
+      -- gather.go `wg.Wait()` at the end of gatherCandidatesInternal: every gatherer (hence every addCandidate call) has returned
       if cy.pc = .gathering ∧ cy.checked = 0 then
         some { s with cycles := s.cycles.set c { cy with pc := .finishing } }
       else none
@@ -201,11 +226,11 @@ def step (s : State) : Action → Option State
     match s.cycles[c]? with
     | some cy =>
       if cy.pc ≠ .finishing then none
-      -- gather.go L179–181: Run failed
+      -- gather.go L216–218: Run failed
       else if s.closed then some { s with cycles := s.cycles.set c { cy with pc := .done } }
-      -- agent.go L2029–2031
+      -- agent.go L2035–2037
       else if cy.cancelled then some { s with cycles := s.cycles.set c { cy with pc := .done } }
-      -- agent.go L2033–2037
+      -- agent.go L2039–2043
       else some { s with
         published := s.published ++ (if s.gstate ≠ .complete then [Pub.nil c] else []),
         gstate := .complete,
